@@ -258,7 +258,7 @@ func runC08(c *Ctx) {
 		replayFilterRule(c, "C08-D3")
 	}
 
-	c.Rule("C08-D4", "persist/restore ordering: on a recoverable disconnect the socket's rooms are read and the session persisted before leaveAll; the session carries sid, pid and those rooms; a restored socket takes sid, pid and rooms from the session and is the only kind marked recovered; RestoreSession is asked with the client's pid and offset", 10)
+	c.Rule("C08-D4", "persist/restore ordering: on a recoverable disconnect the socket's rooms are read before leaveAll and the session is persisted only after the socket has left its rooms and the namespace (F53: both are keyed by the id the recovered socket takes over); the session carries sid, pid and those rooms; a restored socket takes sid, pid and rooms from the session and is the only kind marked recovered; RestoreSession is asked with the client's pid and offset", 10)
 	{
 		owner := p.Fn("sio", "serverSocket.onClose")
 		body := onceBodyOf(owner, "s.closeOnce")
@@ -272,11 +272,29 @@ func runC08(c *Ctx) {
 				c.Ob("C08-D4", "sio.serverSocket.onClose/persist", body.Pos(), false, fmt.Sprintf("expected one PersistSession and one SocketRooms call; found %d and %d", len(ps), len(sr)))
 			} else {
 				as := []Assume{{`s\.Connected\(\)`, true}, {`s\.server\.connectionStateRecovery\.Enabled`, true}, {`sio\.recoverableDisconnectReasons\.Contains\(\[reason\]\)`, true}}
-				early, trail := PrunedCanReach(body, nil, as, isLeave, func(in ssa.Instruction) bool { return in == ps[0].Instr })
-				c.Ob("C08-D4", "sio.serverSocket.onClose/persist-before-leaveAll", ps[0].Pos(), !early, "on a recoverable disconnect leaveAll is reachable before PersistSession: the persisted room list would be empty: "+trailString(p, trail))
-				c.Ob("C08-D4", "sio.serverSocket.onClose/rooms-before-persist", sr[0].Pos(), Dominates(sr[0].Instr, ps[0].Instr) && Term(sr[0].Arg(0)) == "s.ID()", "the socket's rooms must be read (SocketRooms(s.ID())) before persisting")
-				okG := HasGuard(ps[0].Instr, `s\.server\.connectionStateRecovery\.Enabled==true`) && HasGuard(ps[0].Instr, `sio\.recoverableDisconnectReasons\.Contains\(\[reason\]\)==true`)
-				c.Ob("C08-D4", "sio.serverSocket.onClose/persist-condition", ps[0].Pos(), okG, "PersistSession must run exactly when recovery is enabled and the reason is recoverable; guards="+strings.Join(GuardTerms(ps[0].Instr), ","))
+				// the rooms are read while the socket still has them
+				early, trail := PrunedCanReach(body, nil, as, func(in ssa.Instruction) bool { return in == sr[0].Instr }, isLeave)
+				lateRead, _ := PrunedCanReach(body, nil, as, isLeave, func(in ssa.Instruction) bool { return in == sr[0].Instr })
+				c.Ob("C08-D4", "sio.serverSocket.onClose/rooms-read-before-leaveAll", sr[0].Pos(), early && !lateRead && Term(sr[0].Arg(0)) == "s.ID()", "on a recoverable disconnect the socket's rooms (SocketRooms(s.ID())) must be read before leaveAll: the persisted room list would be empty: "+trailString(p, trail))
+				// F53: the session becomes visible to a returning client only after this socket has left its rooms and the
+				// namespace — both are keyed by the socket id, which the recovered socket takes over
+				isRemove := callPred(`\(\*sio\.Namespace\)\.remove`)
+				for _, cl := range []struct {
+					what string
+					pred instrPred
+				}{{"leaveAll", isLeave}, {"Namespace.remove", isRemove}} {
+					before, tr := PrunedCanReach(body, nil, as, func(in ssa.Instruction) bool { return in == ps[0].Instr }, cl.pred)
+					c.Ob("C08-D4", "sio.serverSocket.onClose/persist-after-"+cl.what, ps[0].Pos(), !before, "PersistSession is reachable before "+cl.what+": from that moment the client can come back and get a new socket with the same id, and this socket's "+cl.what+" (by id) then strips the new socket — connected, recovered, and never reached by any emit again: "+trailString(p, tr))
+				}
+				var sidStore ssa.Instruction
+				if sts := findInstrs(body, fieldStorePred(p.Field("adapter", "SessionToPersist", "SID"))); len(sts) == 1 {
+					sidStore = sts[0]
+				}
+				okG := sidStore != nil && HasGuard(sidStore, `s\.server\.connectionStateRecovery\.Enabled==true`) && HasGuard(sidStore, `sio\.recoverableDisconnectReasons\.Contains\(\[reason\]\)==true`)
+				// and whatever was built is persisted
+				built := append(append([]Assume{}, as...), Assume{`\(.*SessionToPersist.* != nil\)`, true}, Assume{`\(.*SessionToPersist.* == nil\)`, false})
+				skipP, _ := PrunedCanReach(body, nil, built, nil, func(in ssa.Instruction) bool { return in == ps[0].Instr })
+				c.Ob("C08-D4", "sio.serverSocket.onClose/persist-condition", ps[0].Pos(), okG && !skipP, "the session must be built exactly when recovery is enabled and the reason is recoverable, and then persisted on every path; guards="+strings.Join(GuardTerms(ps[0].Instr), ","))
 				for fld, want := range map[string]string{"SID": "s.ID()", "PID": "s.pid"} {
 					fv := p.Field("adapter", "SessionToPersist", fld)
 					sts := findInstrs(body, fieldStorePred(fv))
@@ -601,6 +619,63 @@ func runC08(c *Ctx) {
 	c.Rule("C08-D11", "the reconnecting client's CONNECT can be encoded (F45): every value that can reach the `v` argument of (parser.Parser).Encode in the Socket.IO layer — through the wrappers' parameters, phis and locals — "+
 		"is nil, a pointer, or a struct sentinel; a map or slice by value is refused by the encoder, and the CONNECT that presents {pid, offset} was exactly that: with recovery enabled the Go client never reconnected", 3)
 	encoderArgumentsAccepted(c, "C08-D11")
+
+	c.Rule("C08-D12", "a socket removes only itself (F53): Namespace.remove takes the socket out of the namespace's table only when the instance registered under that id is this socket — a recovered socket has the id of "+
+		"its predecessor, whose late clean-up must not remove it", 1)
+	{
+		fn := p.Fn("sio", "Namespace.remove")
+		for _, cs := range CallsTo(Calls(fn), `\(\*sio\.nspSocketStore\)\.remove`) {
+			same := false
+			for _, g := range Guards(cs.Instr) {
+				if bo, ok := g.Cond.(*ssa.BinOp); ok && ((bo.Op == token.EQL && g.Val) || (bo.Op == token.NEQ && !g.Val)) {
+					tx, ty := Term(bo.X), Term(bo.Y)
+					if (strings.Contains(tx, ".get(") && strings.Contains(ty, "socket")) || (strings.Contains(ty, ".get(") && strings.Contains(tx, "socket")) {
+						same = true
+					}
+				}
+			}
+			c.Ob("C08-D12", "sio.Namespace.remove/only-the-registered-instance", cs.Pos(), same, fmt.Sprintf("the entry is removed under %v, by id alone: the clean-up of a socket whose id a recovered socket has taken over removes the NEW socket from the namespace", GuardTerms(cs.Instr)))
+		}
+	}
+	c.Rule("C08-D13", "a session is restored once (F54): on every path on which RestoreSession returns ok=true the session has been deleted from the table — the new socket persists it again on its own recoverable disconnect; a "+
+		"record that stays can be presented again after a deliberate disconnect, or while the recovered socket is still connected (two sockets, one id)", 1)
+	{
+		fn := p.Fn("adapter", "sessionAwareAdapter.RestoreSession")
+		del := func(in ssa.Instruction) bool { return isBuiltinDelete(in, "a.sessions") }
+		okAll := true
+		var at ssa.Instruction
+		for _, b := range fn.Blocks {
+			ret, ok := b.Instrs[len(b.Instrs)-1].(*ssa.Return)
+			if !ok {
+				continue
+			}
+			// the success return: the one behind the store of the missed packets into the returned session
+			success := false
+			for _, st := range findInstrs(fn, fieldStorePred(p.Field("adapter", "SessionToPersist", "MissedPackets"))) {
+				if Dominates(st, ret) {
+					success = true
+				}
+			}
+			if !success {
+				continue
+			}
+			at = ret
+			dominated := false
+			for _, d := range findInstrs(fn, del) {
+				if Dominates(d, ret) {
+					dominated = true
+				}
+			}
+			if !dominated {
+				okAll = false
+			}
+		}
+		pos := fn.Pos()
+		if at != nil {
+			pos = at.Pos()
+		}
+		c.Ob("C08-D13", "adapter.sessionAwareAdapter.RestoreSession/consumes-the-session", pos, okAll && at != nil, "RestoreSession returns ok=true without deleting the session from a.sessions")
+	}
 
 	c.Rule("C08-D5", "client offset bookkeeping: the CONNECT payload presents the stored pid and last offset; the pid is stored from the CONNECT reply and `recovered` set only when it equals the one presented; the values handed to a handler are exactly those decoded for it (no re-slicing between decode and call)", 6)
 	{
